@@ -254,4 +254,4 @@ def run(ctx):
     r = ctx.rule('R16e', 'single owner on failure: a callee that frees a parameter on its error path is not followed by a second free',
                  'double free / use after free on an error path no test takes')
     shared.rule_single_owner(ctx, P, r)
-    r.require_min(1)
+    r.require_min(20, 'front-end call sites with pointer arguments')
